@@ -291,5 +291,58 @@ def s_encrypted_aes256():
     return _encrypted("encrypted-aes256", 5, 6, 256, "AESV3", "table")
 
 
+def _jbig2_segment(number, seg_type, data, page=1):
+    """One JBIG2 segment: number (4), flags (1), referred-to count/retention (1), page association (1), data length (4)."""
+    import struct
+
+    return struct.pack(">LBBBL", number, seg_type, 0, page, len(data)) + data
+
+
+JPEG_BLOB = bytes.fromhex("ffd8ffe000104a46494600010100000100010000ffdb004300") + bytes(range(1, 65)) + bytes.fromhex("ffc0000b080002000301011100ffda0008010100003f00d2cf20ffd9")
+
+
+def s_images():
+    """Image XObjects of every kind the exporter distinguishes (read by the image-export entry point)."""
+
+    def im(data, w, h, bpc, cs, extra=None, flate=False):
+        d = {b"Type": Name(b"XObject"), b"Subtype": Name(b"Image"), b"Width": w, b"Height": h, b"BitsPerComponent": bpc, b"ColorSpace": cs}
+        d.update(extra or {})
+        return content_stream(data, flate=flate, extra=d)
+
+    content = b"".join(b"q 40 0 0 30 %d 500 cm /Im%d Do Q\n" % (20 + 45 * i, i) for i in (1, 2, 4, 5, 6, 7, 8, 9, 10, 11))
+    content += b"q 20 0 0 20 300 300 cm BI /W 3 /H 2 /BPC 1 /IM true /D [1 0] ID \xa0\x40 EI Q BT /F1 9 Tf 10 10 Td (images) Tj ET"
+    # the two kinds whose export needs Pillow come last (without Pillow the export stops at the first of them)
+    content += b" q 40 0 0 30 20 400 cm /Im3 Do Q q 40 0 0 30 80 400 cm /Im12 Do Q"
+    g4 = bytes.fromhex("c0040040")  # two all-white rows of 8 pixels (V0 V0) followed by EOFB
+    globals_ = _jbig2_segment(0, 0, b"\x00\x01\x02\x03")
+    page_seg = _jbig2_segment(1, 48, bytes(19)) + _jbig2_segment(2, 38, bytes(22)) + _jbig2_segment(3, 49, b"")
+    o = {
+        1: {b"Type": Name(b"Catalog"), b"Pages": Ref(2, 0)},
+        2: {b"Type": Name(b"Pages"), b"Kids": [Ref(3, 0)], b"Count": 1},
+        3: {b"Type": Name(b"Page"), b"Parent": Ref(2, 0), b"MediaBox": [0, 0, 612, 792], b"Contents": Ref(4, 0), b"Resources": {b"Font": {b"F1": Ref(5, 0)}, b"XObject": {b"Im%d" % i: Ref(5 + i, 0) for i in range(1, 13)}}},
+        4: content_stream(content),
+        5: std_font(b"Helvetica"),
+        6: im(bytes([0xAA, 0x80, 0x55, 0x40, 0xFF, 0xC0]), 10, 3, 1, Name(b"DeviceGray"), {b"Decode": [1, 0]}),
+        7: im(bytes(range(8)), 4, 2, 8, [Name(b"Indexed"), Name(b"DeviceRGB"), 3, Str(bytes(range(12)), True)]),
+        8: im(bytes(range(16)), 2, 2, 8, Name(b"DeviceCMYK"), flate=True),
+        9: im(bytes(range(16)), 2, 2, 8, Name(b"DeviceCMYK")),
+        10: im(JPEG_BLOB, 3, 2, 8, Name(b"DeviceGray"), {b"Filter": Name(b"DCTDecode")}),
+        11: im(page_seg, 8, 2, 1, Name(b"DeviceGray"), {b"Filter": Name(b"JBIG2Decode"), b"DecodeParms": {b"JBIG2Globals": Ref(18, 0)}}),
+        12: im(g4, 8, 2, 1, Name(b"DeviceGray"), {b"Filter": Name(b"CCITTFaxDecode"), b"DecodeParms": {b"K": -1, b"Columns": 8, b"Rows": 2, b"BlackIs1": False}}),
+        13: im(bytes(range(12)), 3, 2, 16, Name(b"DeviceGray")),
+        14: im(bytes(range(18)), 3, 2, 8, [Name(b"ICCBased"), Ref(19, 0)], {b"SMask": Ref(15, 0), b"Interpolate": True}),
+        15: im(bytes(range(6)), 3, 2, 8, Name(b"DeviceGray")),
+        16: im(bytes(range(12)), 2, 2, 8, Name(b"DeviceRGB"), {b"Mask": [0, 1, 0, 1, 0, 1], b"Filter": [Name(b"ASCIIHexDecode"), Name(b"FlateDecode")], b"DecodeParms": [None, {b"Predictor": 1}]}),
+        17: im(b"\x00\x00\x00\x0cjP  \r\n\x87\n" + bytes(20), 2, 2, 8, Name(b"DeviceRGB"), {b"Filter": Name(b"JPXDecode")}),
+        18: content_stream(globals_),
+        19: content_stream(b"\x00" * 32, extra={b"N": 3, b"Alternate": Name(b"DeviceRGB")}),
+    }
+    # object 16 declares [/AHx /Fl]: encode accordingly
+    o[16] = Stream(dict(o[16].dict), encoders.asciihex_encode(zlib.compress(bytes(range(12)))))
+    o[16].dict[b"Length"] = len(o[16].raw)
+    roles = {1: "Catalog", 2: "Pages", 3: "Page", 4: "ContentStream", 5: "Font:Std14", 6: "Image:1bit", 7: "Image:Indexed", 8: "Image:CMYK+Fl", 9: "Image:CMYK", 10: "Image:DCT", 11: "Image:JBIG2", 12: "Image:CCITT", 13: "Image:16bit", 14: "Image:ICCBased+SMask", 15: "Image:SMask", 16: "Image:RGB+AHx+Fl", 17: "Image:JPX", 18: "JBIG2Globals", 19: "ICCProfile"}
+    return Seed("images", o, roles)
+
+
 def all_seeds():
-    return [s_classic(), s_xrefstream(), s_fonts(), s_forms_images(), s_filters(), s_labels_outlines(), s_cjk(), s_hybrid(), s_encrypted_rc4(), s_encrypted_aes(), s_encrypted_aes256()]
+    return [s_classic(), s_xrefstream(), s_fonts(), s_forms_images(), s_filters(), s_labels_outlines(), s_cjk(), s_hybrid(), s_encrypted_rc4(), s_encrypted_aes(), s_encrypted_aes256(), s_images()]
